@@ -428,3 +428,30 @@ Proof. unfold remap_token_value. apply (proj1 (value_roundtrip (remap_path old n
 Theorem non_file_unchanged rp v :
   match v with JAtom _ | JStr _ => remap_v rp v = Some v | _ => True end.
 Proof. destruct v; simpl; trivial. Qed.
+
+(* ---------- values whose file strings are all in the domain of the path theorems ---------- *)
+Inductive in_domain (old new : list string) : string -> Prop :=
+| dom_plain comps :
+    forallb good comps = true -> comps <> [] ->
+    has_colon_slash (abs (old ++ comps)) = false -> has_colon_slash (abs (new ++ comps)) = false ->
+    in_domain old new (abs (old ++ comps))
+| dom_file comps :
+    forallb good comps = true -> comps <> [] -> in_domain old new (file_loc (old ++ comps))
+| dom_other p :
+    has_colon_slash p = true -> scheme_of p <> "file" -> in_domain old new p.
+
+Theorem value_roundtrip_in_domain old new v v' :
+  forallb good old = true -> forallb good new = true ->
+  remap_token_value (abs old) (abs new) v = Some v' ->
+  (forall s, In s (fs_v v) -> in_domain old new s) ->
+  remap_token_value (abs new) (abs old) v' = Some v.
+Proof.
+  intros Ho Hn Hf Hd. apply (token_value_roundtrip (abs old) (abs new) v v' Hf).
+  intros s Hs s' H1. destruct (Hd s Hs) as [comps Hc Hne C1 C2|comps Hc Hne|p C S].
+  - rewrite (remap_path_plain old new comps Ho Hn Hc Hne C1) in H1. injection H1 as H1. subst s'.
+    apply remap_path_plain; assumption.
+  - rewrite (remap_path_file old new comps Ho Hn Hc Hne) in H1. injection H1 as H1. subst s'.
+    apply remap_path_file; assumption.
+  - rewrite (other_scheme_unchanged (abs old) (abs new) p C S) in H1. injection H1 as H1. subst s'.
+    apply other_scheme_unchanged; assumption.
+Qed.
